@@ -97,11 +97,11 @@ RoundUlps == 4
 (* TOLERANCE NarrowUlps (integer -> narrower integer).  n / MAX_s * MAX_t computed in the working type is two
    roundings plus, from u64/u128, the rounding of n and of MAX_s themselves: at most 2.5 ulp of the scaled value
    when that lies just below a power of two; the exponent estimate below may be one too large (factor 2).
-   Observed: 1.3 ulp.  16 ulp. *)
+   Observed on the pinned tree: 0.5 ulp beyond the half step.  16 ulp. *)
 NarrowUlps == 16
 (* TOLERANCE U2FBits (integer -> float): relative error 2^-(Prec - U2FBits) = 16 u with u = 2^-Prec (half an
    ulp, relatively).  Principled: the reciprocal of MAX or the quotient is rounded (u), the product or the final
-   narrowing to f32 is rounded (u), n itself is rounded when it has more than 53 bits (u): 2-3 u.  Observed: 1.5 u. *)
+   narrowing to f32 is rounded (u), n itself is rounded when it has more than 53 bits (u): 2-3 u.  Observed on the pinned tree: 1.66 u (u8 -> f32 of 12). *)
 U2FBits == 4
 
 -----------------------------------------------------------------------------
